@@ -77,6 +77,7 @@ def run(seed):
     finally:
         sh('git -C /repo checkout -- .')
         sh('PYTHONPATH=/repo/src /venv/bin/python /verif/tools/translate.py')      # restore coq/Gen to the unchanged tree
+        sh(f'git -C /verif checkout -- evidence/{prop}.json')                        # evidence of a mutated run is not evidence
     save_meta(seed, m)
     print(seed, m['check'])
 
